@@ -7,11 +7,11 @@ BASE_OFF = "cd /repo && /venv/bin/python -m pytest -ra -q -p no:cacheprovider --
 CHECKS = {
  # id: (level, technique, level text, design_ref, level_note)
  "C01": ("exploration", "deterministic simulation: seeded configuration/weather/event swarm, per-day and per-process water ledgers as invariants",
-         "seeded search over simulated runs with injected storms, droughts, controller writes and step partitions; the ledger is evaluated on every simulated day between steps. Sampling, not proof.", "DESIGN.md section 6 C01",
+         "seeded search over simulated runs with injected storms and droughts (placed by the calendar and, through state-triggered rules, on the day the model reaches a given state), controller writes and step partitions, plus flooded-basin / hardpan / shallow-pond regimes; the ledger is evaluated on every simulated day between steps. Sampling, not proof.", "DESIGN.md section 6 C01",
          "trusts the harness-side ledger arithmetic and the compartment thicknesses copied at initialisation"),
- "C02": ("exploration", "deterministic simulation: seeded swarm with storm/bund-removal events, surface partition identities checked per day against delivered weather",
+ "C02": ("exploration", "deterministic simulation: seeded swarm with storm / bund-removal events (calendar-placed and state-triggered), surface partition identities checked per day against delivered weather",
          "seeded search; identities checked on every simulated day against the weather the world delivered", "DESIGN.md section 6 C02", "trusts the harness's own determination of which field management applies on a day"),
- "C03": ("exploration", "deterministic simulation: seeded swarm with saturated starts, storms, droughts and shallow tables, bounds as per-day invariants",
+ "C03": ("exploration", "deterministic simulation: seeded swarm with saturated starts, storms, droughts, shallow and jumping water tables (events placed by the calendar and by state-triggered rules), bounds as per-day invariants",
          "seeded search; bounds checked per compartment per day against arrays copied at initialisation", "DESIGN.md section 6 C03", "profile arrays copied at initialisation are the reference"),
  "C04": ("exploration", "deterministic simulation: seeded swarm biased to closed canopies, ponding, mulches; sign/ordering of fluxes as per-day invariants",
          "seeded search; sign and ordering of the nine fluxes checked on every simulated day", "DESIGN.md section 6 C04", "none beyond the harness"),
